@@ -240,8 +240,15 @@ func main() {
 		env.Model = m
 		defer m.Close()
 	}
+	if *out != "" {
+		crumbFile, _ = os.OpenFile(*out+".current", os.O_CREATE|os.O_RDWR|os.O_TRUNC, 0o644)
+	}
 	start := time.Now()
 	err := f(env)
+	if crumbFile != nil {
+		crumbFile.Close()
+		os.Remove(*out + ".current")
+	}
 	env.Rep.WallS = time.Since(start).Seconds()
 	env.Rep.Distinct = len(env.Rep.distinct)
 	if env.Model != nil {
@@ -259,6 +266,23 @@ func main() {
 	if len(env.Rep.Violations) > 0 {
 		os.Exit(1)
 	}
+}
+
+// The input the real engine is about to run is left in <report>.current: when the engine takes the whole process down
+// (a Go stack overflow or another fatal error cannot be recovered), `check` reports that input as the failing one.
+var crumbFile *os.File
+
+func breadcrumb(kind string, payload map[string]any) {
+	if crumbFile == nil {
+		return
+	}
+	payload["kind"] = kind
+	b, err := json.Marshal(payload)
+	if err != nil {
+		return
+	}
+	crumbFile.Truncate(0)
+	crumbFile.WriteAt(b, 0)
 }
 
 // child-process oracles register here
